@@ -14,9 +14,13 @@ EXPLANATION = (
     "'only when over the limit / never own blobs / nothing when unlimited / stop when within the limit' "
     "clauses for all limits, usages and blob mixes; does NOT decide the megabyte-rounding bound on freed space."
 )
+EXACTNESS = ("Second pass (DESIGN.md §10, exactness / completeness halves) — selection and deletion exactly under the shortage tests per storage class, skip test "
+             "terms, MB conversion identical on both sides of the comparison (usage and per-blob credit), rows deleted from the database, listing selected by class; "
+             "both passes unconditional, blob rows inserted with `insert or ignore` and never replaced, is_mine of an existing row changed by update_blob_ownership only.")
+TECHNIQUE = ("static analysis: path-complete guard dominance per literal specialisation, SQL site lexer, def-use dependence; exact fact-set comparison of the tests dominating "
+             "each effect and refusal, unit (conversion expression) agreement")
 ASSUMPTIONS = [
-    "sqlite evaluates `blob.is_mine=?` as written; the `is_mine` column is maintained by storage.add_blobs / "
-    "update_blob_ownership (not analysed here)",
+    "sqlite evaluates `blob.is_mine=?` as written",
 ]
 
 CLEAN = "lbry.blob.disk_space_manager.DiskSpaceManager._clean"
